@@ -29,6 +29,7 @@ import (
 	"github.com/kardiachain/go-kardia/lib/common"
 	"github.com/kardiachain/go-kardia/lib/log"
 	"github.com/kardiachain/go-kardia/lib/metrics"
+	"github.com/kardiachain/go-kardia/lib/rlp"
 
 	"github.com/kardiachain/go-kardia/types"
 
@@ -106,6 +107,12 @@ func saveState(db kaidb.KeyValueStore, state LatestBlockState) {
 
 	rawdb.WriteConsensusStateHeight(batch, state.LastBlockHeight, *sp)
 
+	// validator-set records are keyed by a hash that ignores proposer priorities and are shared
+	// between heights; keep the priorities of this very state next to it
+	if bz, err := encodeValidatorsPriorities(state); err == nil {
+		rawdb.WriteConsensusValidatorsPriorities(batch, state.LastBlockHeight, bz)
+	}
+
 	batch.Write()
 }
 
@@ -128,6 +135,7 @@ func (s *dbStore) PruneState(from, to uint64) (uint64, uint64, uint64) {
 			if err := rawdb.DeleteConsensusStateHeight(s.db, i); err != nil {
 				log.Error("Failed to prune consensus state", "height", i)
 			} else {
+				_ = rawdb.DeleteConsensusValidatorsPriorities(s.db, i)
 				prunedStates++
 				prunedBytes += uint64(len(bz))
 			}
@@ -249,6 +257,7 @@ func loadStateAtHeight(db kaidb.Database, height uint64) *LatestBlockState {
 		panic(err)
 	}
 	state.LastHeightValidatorsChanged = nValsInfo.LastHeightChanged
+	applyValidatorsPriorities(rawdb.ReadConsensusValidatorsPriorities(db, height), state)
 
 	cparams := rawdb.ReadConsensusParamsInfo(db, common.BytesToHash(sp.ConsensusParamsInfoHash))
 	if cparams == nil {
@@ -373,4 +382,73 @@ func MakeGenesisState(genDoc *genesis.Genesis) (LatestBlockState, error) {
 		ConsensusParams:                  *genDoc.ConsensusParams,
 		LastHeightConsensusParamsChanged: genDoc.InitialHeight,
 	}, nil
+}
+
+// validatorsPriorities is the per-state record of proposer priorities (two's complement) and proposers.
+type validatorsPriorities struct {
+	Sets []validatorSetPriorities // last, current, next
+}
+
+type validatorSetPriorities struct {
+	Present    bool
+	Proposer   common.Address
+	Addresses  []common.Address
+	Priorities []uint64
+}
+
+func encodeValidatorsPriorities(state LatestBlockState) ([]byte, error) {
+	rec := validatorsPriorities{}
+	for _, vs := range []*types.ValidatorSet{state.LastValidators, state.Validators, state.NextValidators} {
+		sp := validatorSetPriorities{}
+		if vs != nil {
+			sp.Present = true
+			if vs.Proposer != nil {
+				sp.Proposer = vs.Proposer.Address
+			}
+			for _, v := range vs.Validators {
+				sp.Addresses = append(sp.Addresses, v.Address)
+				sp.Priorities = append(sp.Priorities, uint64(v.ProposerPriority))
+			}
+		}
+		rec.Sets = append(rec.Sets, sp)
+	}
+	return rlp.EncodeToBytes(&rec)
+}
+
+// applyValidatorsPriorities restores the priorities and proposers recorded for this state. A set is left
+// as loaded when there is no record (older databases) or the record does not describe the same members.
+func applyValidatorsPriorities(bz []byte, state *LatestBlockState) {
+	if len(bz) == 0 {
+		return
+	}
+	var rec validatorsPriorities
+	if err := rlp.DecodeBytes(bz, &rec); err != nil || len(rec.Sets) != 3 {
+		return
+	}
+	for i, vs := range []*types.ValidatorSet{state.LastValidators, state.Validators, state.NextValidators} {
+		sp := rec.Sets[i]
+		if vs == nil || !sp.Present || len(sp.Addresses) != len(vs.Validators) || len(sp.Priorities) != len(vs.Validators) {
+			continue
+		}
+		same := true
+		for j, v := range vs.Validators {
+			if v.Address != sp.Addresses[j] {
+				same = false
+				break
+			}
+		}
+		if !same {
+			continue
+		}
+		for j, v := range vs.Validators {
+			v.ProposerPriority = int64(sp.Priorities[j])
+		}
+		if _, val := vs.GetByAddress(sp.Proposer); val != nil {
+			for _, v := range vs.Validators {
+				if v.Address == sp.Proposer {
+					vs.Proposer = v
+				}
+			}
+		}
+	}
 }
